@@ -19,6 +19,7 @@ import Hx.Build
 import Hx.Scan.Dispatch
 import Hx.Lemmas.Indep
 import Hx.Props.C12
+import Hx.Lemmas.Chunk
 namespace Hx
 open Hx.Gen.Cfg
 
@@ -69,5 +70,24 @@ theorem c13_core_sites : coreCfgSites =
   decide
 
 example : use_runtime ⟨true, false, false, true, Arch.x86_64⟩ = true := by decide
+
+
+/-- with C12: the observation is the same under ANY two concrete backends (SWAR 32/64-bit LE/BE, SSE4.2,
+AVX2, NEON, runtime dispatch with any cached value) -/
+theorem c13_concrete_request {b₁ b₂ : Backend} (h₁ : ConcreteBackend b₁) (h₂ : ConcreteBackend b₂)
+    (cfg : Config) (cap : Nat) (buf : List Byte) : reqObs b₁ cfg cap buf = reqObs b₂ cfg cap buf :=
+  c13_backend_request b₁ b₂ (c12_concrete_exact h₁) (c12_concrete_exact h₂) cfg cap buf
+
+theorem c13_concrete_response {b₁ b₂ : Backend} (h₁ : ConcreteBackend b₁) (h₂ : ConcreteBackend b₂)
+    (cfg : Config) (cap : Nat) (buf : List Byte) : respObs b₁ cfg cap buf = respObs b₂ cfg cap buf :=
+  c13_backend_response b₁ b₂ (c12_concrete_exact h₁) (c12_concrete_exact h₂) cfg cap buf
+
+theorem c13_concrete_headers {b₁ b₂ : Backend} (h₁ : ConcreteBackend b₁) (h₂ : ConcreteBackend b₂)
+    (cap : Nat) (buf : List Byte) : hdrsObs b₁ cap buf = hdrsObs b₂ cap buf :=
+  c13_backend_headers b₁ b₂ (c12_concrete_exact h₁) (c12_concrete_exact h₂) cap buf
+
+/-- and `parse_chunk_size` is the same in debug and release builds (C09) -/
+theorem c13_chunk_profile (buf : List Byte) : parseChunkSize true buf = parseChunkSize false buf :=
+  chunk_profile buf
 
 end Hx
